@@ -130,16 +130,16 @@ def run(p: Program, rep: Report, tier: str) -> None:
     rep.require_instances("R15.1", 13)
 
     # ---------------------------------------------------------------- R15.6 what counts as "non-file field data"
-    from .mp_common import file_field_decision
+    from .mp_common import file_field_decision, parseparam_quote_parity
 
-    for kind, fn_, node, cons, msg, facts in file_field_decision(p, rep):
+    for kind, fn_, node, cons, msg, facts in file_field_decision(p, rep) + parseparam_quote_parity(p, rep):
         if kind == "ok":
             rep.ok("R15.6", msg)
         elif kind == "undecided":
             rep.undecide("R15.6", msg)
         else:
             rep.violation("R15.6", construct(fn_, text=cons), where(fn_, node), msg, path_facts=facts)
-    rep.require_instances("R15.6", 2)
+    rep.require_instances("R15.6", 3)
 
     # ---------------------------------------------------------------- R15.4 bounded hold-back
     dec = p.cls("baize.multipart:MultipartDecoder")
@@ -172,7 +172,9 @@ def run(p: Program, rep: Report, tier: str) -> None:
                           "line break is kept in memory entirely and re-scanned on every chunk (bytes held are not bounded by chunk + delimiter length + constant)", path_facts=pa.fact_text()[:6])
     if n_hold == 0:
         rep.undecide("R15.4", "no hold-back emission path found in the DATA branch")
-    rep.require_instances("R15.4", 1)
+    from .c01 import last_newline_shape
+    last_newline_shape(p, rep, "R15.4")
+    rep.require_instances("R15.4", 2)
 
 
 def _block_of(fn: FuncInfo, e: Effect) -> List[ast.stmt]:
